@@ -405,6 +405,17 @@ def _node(draw, cfg, depth, gen, kinds=None):
                 else draw(_node(cfg, depth - 1, gen, kinds=["Element"]))
                 for i in range(n)
             ]
+        elif kind != "AllOf" and draw(st.integers(0, 4)) == 0:
+            # alternatives that accept common values but construct them differently (which branch builds
+            # the result is observable: 1 vs 1.0, model instance vs untyped dict)
+            pair = draw(st.sampled_from([("Integer", "Number"), ("Number", "Integer"), ("Element", "Number"),
+                                         ("Object", "Element"), ("Element", "Object"), ("Number", "Element")]))
+            members = []
+            for k in pair:
+                if k == "Object" and not (cfg.classes and gen.class_names):
+                    k = "Element"
+                members.append(draw(_node(cfg, max(depth - 1, 1) if k == "Object" else 0, gen, kinds=[k])))
+            node["elements"] = members
         elif kind != "AllOf" and n > 1 and draw(st.integers(0, 3)) == 0:
             # alternatives of one type (annotations de-duplicate to a plain type)
             same = draw(st.sampled_from(["Integer", "Number", "String", "Array"]))
